@@ -3,10 +3,12 @@ import sup
 
 RULE = ("cases are a deterministic function of (tier, seed, index). 3 coordinate cases enumerate all 64x64 tiles (clauses corner / centre / range). "
         "WDT: one case = one map definition = version (Classic..BfA) x grid shape (empty, full, each corner alone, diagonal, asymmetric L, random 1 % / 50 %) x "
-        "map type (terrain / WMO-only with MWMO name + MODF placement) x MAID (BfA) x MPHD flags/fields; pass 0 = terrain maps as the version's format has them, "
+        "map type (terrain / WMO-only with MWMO name + MODF placement) x MAID (BfA; its root-ADT ids either name exactly the present tiles, only some of them, none at all "
+        "- the all-zero table convert_wdt itself creates - or some absent tiles as well) x MPHD flags/fields; pass 0 = terrain maps as the version's format has them, "
         "pass 1 = WMO-only maps, further passes = random variants. Per case: write, independent chunk walk (MAIN/MAID grid order, MPHD flag word, chunk presence), "
         "parse, field-wise and PartialEq comparison with the harness's own model, second write byte-identical, convert_wdt to all 8 versions (MAIN equal in memory and "
-        "after write->parse). WDL: version (Vanilla..Legion) x grid shape x holes (none/half/all tiles) x model chunks (MWMO/MWID/MODF or ML**); write from two "
+        "after write->parse), and on top of each of those results a second convert_wdt to all 8 versions (chains v->t->u; MAIN equal in memory, and after write->parse for the "
+        "way back v->t->v). WDL: version (Vanilla..Legion) x grid shape x holes (none/half/all tiles) x model chunks (MWMO/MWID/MODF or ML**); write from two "
         "independently built objects, MAOF resolved by the walker, parse by two fresh versioned parsers and the default parser, projection compared as sorted maps, "
         "second write from each parsed instance, convert_wdl_file to all 6 versions. distinct = distinct (format, version, grid, optional-chunk configuration) classes; "
         "every case writes and parses at least one file, so every executed case is non-trivial.")
@@ -18,6 +20,8 @@ ASSUME = [
     "a terrain map of a Cataclysm+ version carrying an MWMO chunk (not expressible in that version) may come back with or without the chunk; both outcomes are counted",
     "conversion: 'tile data' = WDT MAIN entries / WDL heights (+ holes when both versions carry them); a refusal to convert holes into Vanilla is not a loss; "
     "MAID cannot exist before BfA, so its removal/creation by convert_wdt is not compared",
+    "the file-id table and MAIN are independent content: a BfA map whose MAID root ids do not mirror MAIN's presence bits is a valid map definition (the converter's own upgrade "
+    "produces one), and MAIN is the tile data a conversion must keep",
     "clause 'range' (world_to_tile stays inside 0..63 for points up to the map's outermost edge) is the harness's reading of 'returns the same tile' for the last row/column",
 ]
 
